@@ -186,10 +186,34 @@ func checkC07(c *Ctx) {
 
 	// ---- sign flags are canonical
 	c.Rule("C07.sign", "SIGN-CANONICAL: where a decoder negates the recovered coordinate because the flag asks for the 'largest' / negative root although the computed root is not the largest one, the coordinate is known to be non-zero (dominating IsZero test): 0 = -0 has a single encoding, so a set sign flag with a zero coordinate is an alias that re-encodes to different bytes", 40)
-	for _, fn := range decoders {
-		if !decName.MatchString(fn.Name()) {
-			continue
+	// the decoders and the functions of their package they hand part of the work to
+	var signScope []*ssa.Function
+	{
+		seen := map[*ssa.Function]bool{}
+		var add func(fn *ssa.Function, d int)
+		add = func(fn *ssa.Function, d int) {
+			if fn == nil || seen[fn] || fn.Blocks == nil || d > 2 {
+				return
+			}
+			seen[fn] = true
+			signScope = append(signScope, fn)
+			for _, b := range fn.Blocks {
+				for _, in := range b.Instrs {
+					if ci, ok := in.(ssa.CallInstruction); ok {
+						if sc := ci.Common().StaticCallee(); sc != nil && fnPkgPath(sc) == fnPkgPath(fn) && !decName.MatchString(sc.Name()) {
+							add(sc, d+1)
+						}
+					}
+				}
+			}
 		}
+		for _, fn := range decoders {
+			if decName.MatchString(fn.Name()) {
+				add(fn, 0)
+			}
+		}
+	}
+	for _, fn := range signScope {
 		ctx := blockContextsN(fn, 0)
 		var negs []ssa.Instruction
 		for _, b := range fn.Blocks {
